@@ -176,6 +176,54 @@ def process_packet_prepare(o, conn, args):
 REPLAY_CALLS = {}
 
 
+def replay_cleanup(o):
+    """Native scenario behind the waiter loop of _cleanup (used when one of its invariant obligations fails): a connected connection
+    with one finished and two pending waiters is closed, once with a fatal connection error recorded, once with a foreign error, once
+    with none.  Confirmed iff a pending waiter is not failed, is failed with something else than the first cause (resp. a
+    ReadFailedAPIError caused by it / a plain APIConnectionError), or a finished waiter is touched."""
+    if "/loop#1/" not in o["id"] and "waiter" not in o["id"]:
+        return None, "no native evaluator for this clause"
+    import aioesphomeapi.core as core
+    problems = []
+    for fatal in (core.RequiresEncryptionAPIError("first cause"), ValueError("foreign"), None):
+        loop = asyncio.new_event_loop()
+        asyncio.set_event_loop(loop)
+        try:
+            conn, log, stops = build({"self.connection_state": "ConnectionState.CONNECTED", "self.on_stop": 1, "self._frame_helper": 1, "self._socket": 1}, loop)
+            conn._fatal_exception = fatal
+            done = loop.create_future()
+            done.set_result(None)
+            p1, p2 = loop.create_future(), loop.create_future()
+            conn._read_exception_futures = {done, p1, p2}
+            try:
+                conn._cleanup()
+            except Exception as e:      # noqa: BLE001
+                problems.append(f"_cleanup raised {type(e).__name__}: {e}")
+                continue
+            if done.exception() is not None:
+                problems.append("a finished waiter was failed")
+            for p in (p1, p2):
+                if not p.done() or p.exception() is None:
+                    problems.append(f"a pending waiter was not failed (fatal={type(fatal).__name__})")
+                    continue
+                ex = p.exception()
+                if isinstance(fatal, core.APIConnectionError) and ex is not fatal:
+                    problems.append(f"a waiter saw {type(ex).__name__} instead of the first cause {type(fatal).__name__}")
+                if fatal is not None and not isinstance(fatal, core.APIConnectionError) and not (isinstance(ex, core.ReadFailedAPIError) and ex.__cause__ is fatal):
+                    problems.append(f"a waiter saw {type(ex).__name__} for a foreign first cause")
+                if fatal is None and not isinstance(ex, core.APIConnectionError):
+                    problems.append(f"a waiter saw {type(ex).__name__} on a plain close")
+            if conn._read_exception_futures:
+                problems.append("waiters left registered after the close")
+            if stops != [False]:
+                problems.append(f"stop callback calls {stops}")
+        finally:
+            loop.close()
+            asyncio.set_event_loop(None)
+    return (bool(problems)), ("; ".join(problems[:4]) or "closing a connection with finished and pending waiters behaves as specified natively")
+
+
 REPLAYS = {
+    "_cleanup": replay_cleanup,
     "process_packet": replay_method("process_packet", ["msg_type_proto", "data"], PROCESS_PACKET_CHECKS, process_packet_prepare),
 }
